@@ -356,3 +356,21 @@ func (f *Facts) grammarReachable(start string) map[string]bool {
 	walk(start)
 	return seen
 }
+
+// ctxParam: the parameter of a handler-like function that holds the evaluation context: the first one of type pointer
+// to the context struct (a method used as a handler has its receiver in front of it); Params[0] otherwise.
+func ctxParam(fn *ssa.Function) *ssa.Parameter {
+	if fn == nil || len(fn.Params) == 0 {
+		return nil
+	}
+	if theWorld != nil {
+		if r := theWorld.Roles(); r != nil && r.CtxType != nil {
+			for _, p := range fn.Params {
+				if pt, ok := p.Type().(*types.Pointer); ok && types.Identical(pt.Elem(), r.CtxType) {
+					return p
+				}
+			}
+		}
+	}
+	return fn.Params[0]
+}
